@@ -19,7 +19,7 @@
 (* property) and then requires the model's 1-D value to agree with A_2n    *)
 (* within the accuracy of the model's own quadrature (ModelTol).           *)
 (***************************************************************************)
-EXTENDS TraceBase, IEEE
+EXTENDS TraceBase, IEEE, FiniteSets
 
 VARIABLES l, st      \* st: the verified rules, a function n -> [x, w]
 
@@ -79,10 +79,13 @@ ApplyAvg(rules, e) ==
         \* and so does a nested 20 x 20 Gauss-Legendre rule (phi by Gauss too, like the models' own nested
         \* loops; gauss20 is the smallest rule they use): an integrand that rule resolves is resolved by
         \* the model's own 20/76/150-node loops
-        conv == FVecNear(A1, A2, ConvTol, "1e-300") /\ FVecNear(A3, A2, ConvTol, "1e-300")
-                /\ FVecNear(A0, A2, ConvTol, "1e-300")
+        \* (judged per q point: the property is restricted to the points where the quadratures have converged)
+        conv(j) == FNear(A1[j], A2[j], ConvTol, "1e-300") /\ FNear(A3[j], A2[j], ConvTol, "1e-300")
+                   /\ FNear(A0[j], A2[j], ConvTol, "1e-300")
         \* I = scale <F^2> / V + background with scale 1, background 0
         Iwant == FVecDiv(A2, e.V)
+        badF == {j \in 1..nq : conv(j) /\ ~FNear(e.F2[j], A2[j], ModelTol, "1e-300")}
+        badI == {j \in 1..nq : conv(j) /\ ~FNear(e.I[j], Iwant[j], ModelTol, "1e-300")}
     IN IF e.raised # "" THEN <<"raised", e.raised>>
        ELSE IF e.lev1.n \notin DOMAIN rules \/ e.lev2.n \notin DOMAIN rules \/ e.lev3.n \notin DOMAIN rules
                \/ e.lev0.n \notin DOMAIN rules THEN <<"harness-unverified-rule", "">>
@@ -90,18 +93,17 @@ ApplyAvg(rules, e) ==
                                   \/ ~VecOK(e.lev3, rules, e.q[j], j)
                                   \/ ~VecOK(e.lev0, rules, e.q[j], j)
             THEN <<"harness-directions", "">>
-       ELSE IF ~conv THEN <<>>          \* premise not met: counted by the harness (flag printed below)
-       ELSE IF ~FVecNear(e.F2, A2, ModelTol, "1e-300") THEN <<"F2-is-not-the-spherical-average", ToString(<<"average", A2, "model", e.F2>>)>>
-       ELSE IF ~FVecNear(e.I, Iwant, ModelTol, "1e-300") THEN <<"I-is-not-the-spherical-average", ToString(<<"average/V", Iwant, "model", e.I>>)>>
+       ELSE IF Len(e.F2) # nq \/ Len(e.I) # nq THEN <<"F2-is-not-the-spherical-average", ToString(<<"lengths", Len(e.F2), Len(e.I), nq>>)>>
+       ELSE IF badF # {} THEN <<"F2-is-not-the-spherical-average", ToString(<<"q points", badF, "average", A2, "model", e.F2>>)>>
+       ELSE IF badI # {} THEN <<"I-is-not-the-spherical-average", ToString(<<"q points", badI, "average/V", Iwant, "model", e.I>>)>>
        ELSE <<>>
+\* number of q points at which the convergence premise holds
 Converged(rules, e) ==
-    LET nq == Len(e.q) IN
-    /\ FVecNear([j \in 1..nq |-> Estimate(e.lev1, rules, j)],
-                [j \in 1..nq |-> Estimate(e.lev2, rules, j)], ConvTol, "1e-300")
-    /\ FVecNear([j \in 1..nq |-> Estimate(e.lev3, rules, j)],
-                [j \in 1..nq |-> Estimate(e.lev2, rules, j)], ConvTol, "1e-300")
-    /\ FVecNear([j \in 1..nq |-> Estimate(e.lev0, rules, j)],
-                [j \in 1..nq |-> Estimate(e.lev2, rules, j)], ConvTol, "1e-300")
+    LET nq == Len(e.q)
+        E(lev, j) == Estimate(lev, rules, j)
+    IN Cardinality({j \in 1..nq : FNear(E(e.lev1, j), E(e.lev2, j), ConvTol, "1e-300")
+                                   /\ FNear(E(e.lev3, j), E(e.lev2, j), ConvTol, "1e-300")
+                                   /\ FNear(E(e.lev0, j), E(e.lev2, j), ConvTol, "1e-300")})
 
 TInit == l = 1 /\ st = <<>> /\ TLCSet(1, 0) /\ TLCSet(2, 0)
 TNext ==
